@@ -189,7 +189,38 @@ def r05_6(ctx):
     ctx.ob("R05.6", "html-attr-pushed-only-if-no-equal-local-name", ok, "finish_attribute pushes only when no existing attribute has the same local name")
 
 
+FORM_ASSOCIATED = {"button", "fieldset", "input", "object", "output", "select", "textarea", "img"}
+
+
+def r05_8(ctx):
+    """associate_with_form receives an HTML form-associated element: the call is made only on paths that established that the new
+    element's expanded name is (HTML namespace, one of button fieldset input object output select textarea img) - a test of the
+    local name alone would hand SVG / MathML elements called `input`, `select`, ... to the sink"""
+    key, pcs = nfq.cells(ctx, "html_tree_builder", "TreeBuilder<Handle,Sink>::insert_element")
+    names = set()
+    bad = None
+    k = 0
+    for pc in nfq.feasible(pcs):
+        if not any(a == "self.sink.associate_with_form" for a, _ in pc["actions"]):
+            continue
+        k += 1
+        pos = [g for g, v in pc["guards"].items() if v and re.search(r"matches (ExpandedName\{ns:atom:http://www\.w3\.org/1999/xhtml,local:atom:[\w-]+\}\|?)+(#\d+)?$", g)]
+        if not pos:
+            bad = "associate_with_form is reached without a test of the element's expanded name against HTML-namespace names (guards: %s)" % [g[:70] for g, v in pc["guards"].items() if v][:3]
+            continue
+        for g in pos:
+            names |= set(re.findall(r"local:atom:([\w-]+)", g))
+        if not any(v and "self.form_elem matches Some(_)" in g for g, v in pc["guards"].items()):
+            bad = "associate_with_form is reached without the form element pointer being set"
+    if bad is None and k and not names <= FORM_ASSOCIATED:
+        bad = "elements %s are associated with the form owner; the form-associated elements the parser associates are %s" % (sorted(names - FORM_ASSOCIATED), sorted(FORM_ASSOCIATED))
+    ctx.ob("R05.8", "form-association-only-for-html-form-associated-elements", bad is None and k >= 1, bad or "%d associating paths, all under an (HTML namespace, form-associated name) test: %s" % (k, sorted(names)),
+           "html5ever tree_builder insert_element")
+
+
 def run(ctx):
+    ctx.rule("R05.8", "associate_with_form is called only for HTML-namespace form-associated elements, with the form pointer set")
+    ctx.guard("R05.8", "form-association", lambda: r05_8(ctx))
     ctx.rule("R05.1", "get_template_contents(x) only under html_elem_named(x, template)")
     ctx.rule("R05.2", "every node handed to an append-family call is fresh or was detached (remove_from_parent) earlier on the same path")
     ctx.rule("R05.5", "a doctype is appended only in the initial mode/phase, on a path that leaves it or tests-and-sets a once-flag; the initial mode/phase is never re-entered")
